@@ -101,6 +101,26 @@ Theorem C18_reads_follow_updates :
 Proof. exact C18_reads_follow_updates_lemma. Qed.
 Print Assumptions C18_reads_follow_updates.
 
+(* parse_qsl(qs, setitem=d.__setitem__) on a dict d0 that already holds entries: the grouped
+   pairs are merged into it like dict.update (existing keys replaced in place, new keys behind). *)
+Theorem C18_setitem_into_existing :
+  forall (d0 : fdict) (ps : list (str * str)),
+    (forall k v, In (k, v) ps -> k <> [] /\ Forall scalar k /\ Forall scalar v) ->
+    parse_qsl_into d0 (urlencode ps) = QDone (dict_update d0 (group ps))
+    /\ parse_qsl_into d0 (urlencode_q ps) = QDone (dict_update d0 (group ps)).
+Proof. exact C18_setitem_into_lemma. Qed.
+Print Assumptions C18_setitem_into_existing.
+
+(* parse_qsl(qs, append=acc.append): the pairs are appended behind whatever the list holds. *)
+Theorem C18_append_mode :
+  forall (l0 : list (str * str)),
+    (forall qs, qsl_run add_pair qs l0 = Some (l0 ++ qsl_spec qs))
+    /\ (forall ps, (forall k v, In (k, v) ps -> k <> [] /\ Forall scalar k /\ Forall scalar v) ->
+                   qsl_run add_pair (urlencode ps) l0 = Some (l0 ++ ps)
+                   /\ qsl_run add_pair (urlencode_q ps) l0 = Some (l0 ++ ps)).
+Proof. exact C18_append_mode_lemma. Qed.
+Print Assumptions C18_append_mode.
+
 (* One application object serving several requests: response i is a function of request i. *)
 Theorem C18_requests_independent :
   forall (reqs : list (str * list N)) i,
